@@ -9,7 +9,7 @@ import torch
 
 from aggs import catalogue
 from common import Ctx, classify_exc
-from matrices import cayley, m_int, m_svd, m_unit, matmul, to_tensor, ulp
+from matrices import cayley, dependent_rows, m_int, m_svd, m_unit, matmul, to_tensor, ulp
 from prop_C03 import TRUSTED
 
 DT = torch.float64
@@ -43,7 +43,13 @@ def one(ctx: Ctx, spec, dtype):
     rng = ctx.rng
     m = max(spec.min_rows, rng.choice([2, 3, 4]))
     n = rng.choice([m, m + 1, m + 2]) if (spec.pinv or spec.solver or spec.ties) else rng.choice([2, 3, 5])
-    if spec.pinv or spec.solver or spec.ties or rng.random() < 0.5:
+    if spec.pinv and not spec.solver and rng.random() < 0.5:
+        # rank-deficient with an unambiguous rank: one row is a combination of two others (not a duplicate) — what a
+        # pseudo-inverse handles and a plain solve / Cholesky factorisation does not
+        m = max(m, 3)
+        J = dependent_rows(rng, m, rng.choice([m - 1, m, m + 2]))
+        ctx.count("family", f"{spec.name}:dependent-rows")
+    elif spec.pinv or spec.solver or spec.ties or rng.random() < 0.5:
         J = well_conditioned(rng, m, max(n, m))
     else:
         J = m_int(rng, m, n)
